@@ -12,10 +12,18 @@ Extra == { <<"9","9","9","9","9","9","9","9","9","9">>,
            <<"2","1","4","7","4","8","3","6","4","7">>, <<"2","1","4","7","4","8","3","6","4","8">>,
            <<"v","1",".","2",".","3","-","r","c","1">>, <<"1",".","2",".","3",".","4">>, <<"0","0","1",".","0","2">>,
            <<"v","v","1">>, <<"1",".",".","2">>, <<".","1">>, <<"l","a","t","e","s","t">> }
+\* versions whose components reach and pass 1000 (a packed or truncated comparison key would confuse them)
+DigitChar(d) == CASE d = 0 -> "0" [] d = 1 -> "1" [] d = 2 -> "2" [] d = 3 -> "3" [] d = 4 -> "4" [] d = 5 -> "5" [] d = 6 -> "6" [] d = 7 -> "7" [] d = 8 -> "8" [] d = 9 -> "9"
+RECURSIVE NumSeq(_)
+NumSeq(n) == IF n < 10 THEN <<DigitChar(n)>> ELSE Append(NumSeq(n \div 10), DigitChar(n % 10))
+Comp == {0, 1, 999, 1000, 1001}
+Big == {NumSeq(x) \o <<".">> \o NumSeq(y) \o <<".">> \o NumSeq(z) : x \in Comp, y \in Comp, z \in Comp}
+       \cup {NumSeq(1) \o <<".">> \o NumSeq(20250101) \o <<".">> \o NumSeq(2024), NumSeq(2) \o <<".">> \o NumSeq(20250101) \o <<".">> \o NumSeq(20250101),
+             NumSeq(1) \o <<".">> \o NumSeq(1) \o <<".">> \o NumSeq(1500), NumSeq(1) \o <<".">> \o NumSeq(2) \o <<".">> \o NumSeq(5), NumSeq(0) \o <<".">> \o NumSeq(0) \o <<".">> \o NumSeq(2147483647)}
 VARIABLES kind, a, b
 vv == <<kind, a, b>>
 \* stratified subset for the pairwise part: all strings of length <= 3 that parse + a few that do not
-Sub == {s \in Strs(3) : ParseSemVer(s).valid} \cup {<<>>, <<"v">>, <<"a">>, <<".","1">>} \cup Extra
+Sub == {s \in Strs(3) : ParseSemVer(s).valid} \cup {<<>>, <<"v">>, <<"a">>, <<".","1">>} \cup Extra \cup Big
 
 App(line, file) == Serialize(line \o "\n", file, [format |-> "TXT", charset |-> "UTF-8",
                              openOptions |-> <<"WRITE","CREATE","APPEND">>]).exitValue = 0
